@@ -356,7 +356,7 @@ def cases(rng, tier):
                     out.append({"url": url, "variant": variant_of(rng, url), "proxy": proxy})
     for u in ("http://example.com/x", "https://example.com./", "http://Example.COM:8080/a?b", "https://a.b.example/"):
         out.append({"url": u, "variant": dot_variant(u), "variant_kind": "dot", "proxy": None})
-    for _ in range(2500 if tier == "quick" else 200000):
+    for _ in range(7000 if tier == "quick" else 200000):
         out.append(one_case(rng))
     return out
 
